@@ -73,9 +73,13 @@ def judge_traces(run, jobs, props, spec="TraceGame", panic_filter=None):
     attributes FAIL judgements: those in `props` (plus PANIC) to this run's property."""
     budget = float(os.environ.get("VERIF_BUDGET_S", "2400" if run.tier == "thorough" else "1e9"))
 
+    # the budget counts from the start of the run, but judging always gets at least ten minutes (a check whose model
+    # checking and trace recording alone exceed the budget would otherwise judge nothing)
+    deadline = max(run.t0 + budget, time.time() + min(600.0, budget))
+
     def one(job):
         path, desc = job
-        if time.time() - run.t0 > budget:
+        if time.time() > deadline:
             return job, None          # wall-clock budget of the run used up: not judged, and counted as such
         return job, core.tlc_trace(path, spec=spec)
     if len(jobs) > 1:
